@@ -149,6 +149,10 @@ pub struct QuerySpec {
     /// smallest TTL (negative: before)
     #[serde(default)]
     pub ttl_boundary: Option<i64>,
+    /// tcpidle shape: send this many milliseconds after (negative: before) the instant at
+    /// which the newest upstream TCP reply is 120 seconds old
+    #[serde(default)]
+    pub tcp_idle_off: Option<i64>,
 }
 
 #[derive(Clone, Debug, Serialize, Deserialize)]
@@ -177,6 +181,9 @@ pub struct PlanB {
     pub out_dup_p: f64,
     pub out_delay_p: f64,
     pub qid_bits: u32,
+    /// size of erbium's host's ephemeral port range (0: default)
+    #[serde(default)]
+    pub eph_ports: u16,
     pub sndbuf: usize,
     pub max_seg: usize,
     pub lat_max_us: u64,
@@ -467,6 +474,7 @@ pub fn generate(seed: u64, g: &GenB) -> PlanB {
         out_dup_p: if faulty && r.chance(0.3) { 0.1 } else { 0.0 },
         out_delay_p: if faulty && r.chance(0.3) { 0.2 } else { 0.0 },
         qid_bits: if idreuse { 3 } else if faulty && r.chance(0.3) { *r.pick(&[6u32, 3]) } else { 16 },
+        eph_ports: 0,
         sndbuf: *r.pick(&[4096usize, 16384, 65536, 1 << 20, 1 << 20]),
         max_seg: *r.pick(&[0usize, 0, 0, 1460, 536]),
         lat_max_us: *r.pick(&[100u64, 2000, 20000]),
@@ -666,6 +674,7 @@ pub fn generate(seed: u64, g: &GenB) -> PlanB {
             liveness_probe: false,
             after_faults: false,
             ttl_boundary: None,
+            tcp_idle_off: None,
         });
     }
     if faulty && !p.queries.is_empty() {
@@ -700,11 +709,59 @@ pub fn generate(seed: u64, g: &GenB) -> PlanB {
     if shape == "cache" {
         add_cache_followups(&mut p, &mut r);
     }
+    if shape == "tcpidle" {
+        add_tcp_idle_followups(&mut p, &mut r);
+    }
+    {
+        /* knobs added later draw from their own stream, so that older seeds keep their plans */
+        let mut k = Rng::new(seed, "plan-b-knobs2");
+        if faulty && k.chance(0.35) {
+            p.eph_ports = *k.pick(&[4u16, 16, 64, 512]);
+        }
+    }
     if shape == "hostile" {
         add_hostile(&mut p, &mut r);
     }
     p.queries.sort_by_key(|q| q.at_ms);
     p
+}
+
+/// The tcpidle shape: everything goes to the upstreams over TCP and is answered quickly;
+/// then follow-up queries are aimed at the instants around which erbium's idle timers of
+/// the upstream connection (120 s after its last send / last reply) run out, and are
+/// answered slowly.
+fn add_tcp_idle_followups(p: &mut PlanB, r: &mut Rng) {
+    for q in p.queries.iter_mut() {
+        q.tcp = true;
+        q.up = UpBehaviour::Normal { delay_ms: r.range(1, 20) };
+        q.up_tcp = UpTcp::Normal;
+        q.dup_in = false;
+    }
+    p.queries.truncate(r.range(1, 4) as usize);
+    let base: Vec<QuerySpec> = p.queries.clone();
+    let last = base.iter().map(|q| q.at_ms).max().unwrap_or(1000);
+    let mut port = 2500u16;
+    let mut extra = vec![];
+    for k in 1..=r.range(1, 3) {
+        let q = r.pick(&base).clone();
+        let mut f = q.clone();
+        f.at_ms = last + 100_000 + 120_000 * (k - 1);
+        f.tcp_idle_off = Some(*r.pick(&[-900i64, -400, -250, -150, -100, -50, -30, -10, -1, 0, 1, 50]));
+        port += 1;
+        f.src_port = port;
+        f.id = r.below(65536) as u16;
+        f.qname = Name::parse(&format!("idle{}.{}", k, q.qname.to_text()));
+        f.ans.seed = r.next_u64();
+        f.up = UpBehaviour::Normal { delay_ms: *r.pick(&[5u64, 100, 300, 600, 1000]) };
+        f.up_tcp = if r.chance(0.5) { UpTcp::OneByte } else { UpTcp::Normal };
+        f.tcp = r.chance(0.8);
+        if !f.tcp {
+            /* a UDP query whose answer is truncated reaches the same connection */
+            f.up = UpBehaviour::Tc;
+        }
+        extra.push(f);
+    }
+    p.queries.extend(extra);
 }
 
 /// The cache shape: repeat keys at instants around the TTL boundary, and
@@ -793,6 +850,7 @@ pub fn generate_flood(seed: u64, cookie: bool) -> PlanB {
         liveness_probe: false,
         after_faults: false,
         ttl_boundary: None,
+            tcp_idle_off: None,
     };
     let mut port = 1024u16;
     let mut next_port = || {
